@@ -165,7 +165,7 @@ pub fn case(idx: u64, seed: u64, p: &Params, o: &mut CaseOut) {
     let max = p.usize("max_order", 40);
     let fam = r.below(gen::FAMILIES.len());
     let n = if r.chance(0.7) { gen::algo_order(&mut r, max.min(10), 130) } else { r.range(1, max) };
-    let fam = if n > max { gen::sparse_family(&mut r) } else { fam };
+    let fam = if n > max && (n > 70 || r.chance(0.5)) { gen::sparse_family(&mut r) } else { fam };
     let mut m = gen::family(&mut r, fam, n);
     // an isolated top vertex, so that "order = largest id + 1" is not an accident
     let isolated_top = n >= 2 && r.chance(0.4);
